@@ -211,7 +211,7 @@ pub struct Built {
     pub puppet_specs: Vec<PuppetSpec>,
     pub probes: Vec<Box<dyn ProbeCtl>>,
     pub probe_specs: Vec<ProbeSpec>,
-    pub subscribe: Vec<Box<dyn Fn() + Send + Sync>>,
+    pub subscribe: Vec<Box<dyn Fn()>>,
     pub info: Info,
     /// number of times the user closure (map f / filter predicate / scan reducer) ran
     pub closure_calls: Arc<AtomicUsize>,
@@ -233,7 +233,7 @@ fn mk_probes<T: Repr + Send + Sync + 'static>(
     output: &Src<T>,
     specs: &[ProbeSpec],
     probes: &mut Vec<Box<dyn ProbeCtl>>,
-    subscribe: &mut Vec<Box<dyn Fn() + Send + Sync>>,
+    subscribe: &mut Vec<Box<dyn Fn()>>,
 ) {
     for (i, s) in specs.iter().enumerate() {
         let p = Probe::<T>::new(world, i, label, s.clone());
@@ -251,7 +251,7 @@ pub fn build(topo: &Topo, pspecs: &[PuppetSpec], lens: &[usize], probe_specs: &[
     let op = topo.op_name();
     let mut puppets: Vec<Box<dyn PuppetCtl>> = vec![];
     let mut probes: Vec<Box<dyn ProbeCtl>> = vec![];
-    let mut subscribe: Vec<Box<dyn Fn() + Send + Sync>> = vec![];
+    let mut subscribe: Vec<Box<dyn Fn()>> = vec![];
     let mut info = Info::default();
     let closure_calls = Arc::new(AtomicUsize::new(0));
     let foreach_seen = Arc::new(std::sync::Mutex::new(vec![]));
@@ -330,17 +330,22 @@ pub fn build(topo: &Topo, pspecs: &[PuppetSpec], lens: &[usize], probe_specs: &[
             mk_probes(&world, &op, &out, probe_specs, &mut probes, &mut subscribe);
         },
         Topo::ForEach => {
-            let p = mk(0, &op);
-            puppets.push(Box::new(Arc::clone(&p)));
-            info.members = vec![0];
+            // one for_each value, applied to one source per puppet (C13 applies it to two)
             let seen = Arc::clone(&foreach_seen);
-            let src = p.source();
-            let w = Arc::clone(&world);
-            subscribe.push(Box::new(move || {
-                w.set_owner(0);
-                let seen = Arc::clone(&seen);
-                callbag::for_each(move |x: i64| seen.lock().unwrap().push(x))(Arc::clone(&src));
-            }));
+            let fe: std::rc::Rc<Box<dyn Fn(Src<V>)>> =
+                std::rc::Rc::new(callbag::for_each(move |x: i64| seen.lock().unwrap().push(x)));
+            for i in 0..pspecs.len() {
+                let p = mk(i, &op);
+                puppets.push(Box::new(Arc::clone(&p)));
+                info.members.push(i);
+                let src = p.source();
+                let w = Arc::clone(&world);
+                let fe = std::rc::Rc::clone(&fe);
+                subscribe.push(Box::new(move || {
+                    w.set_owner(i as i32);
+                    fe(Arc::clone(&src));
+                }));
+            }
         },
         Topo::FromIter(len) => {
             let it = crate::pull::CountIter::new(0, 0, *len, Some(&world));
